@@ -37,8 +37,8 @@ theorem find_of_mem_keys (l : List Bytes) (k : Bytes) (h : k ∈ l.map key) :
     exact ⟨e, rfl, by simpa using List.find?_some hf, List.mem_of_find?_eq_some hf⟩
 
 theorem inv_admit {U : List Bytes} {a : Acc} (hi : Inv key U a) (tx : Bytes) (hu : tx ∈ U) :
-    Inv key U (admit key a tx) := by
-  unfold admit
+    Inv key U (admitTx key a tx) := by
+  unfold admitTx
   split
   · exact hi
   · rename_i hn
@@ -73,10 +73,10 @@ theorem v1_step_exact {U : List Bytes} {a : Acc} (hi : Inv key U a) (hb : a.byte
     (op : Op) (hu : op.tx ∈ U) :
     Inv key U (stepV1 key a op) ∧ (stepV1 key a op).bytes = bytesOf (stepV1 key a op).entries := by
   cases op with
-  | admit tx =>
+  | add tx =>
     refine ⟨inv_admit key hi tx hu, ?_⟩
-    show (admit key a tx).bytes = bytesOf (admit key a tx).entries
-    unfold admit
+    show (admitTx key a tx).bytes = bytesOf (admitTx key a tx).entries
+    unfold admitTx
     split
     · exact hb
     · simp only [bytesOf_append, hb]
@@ -98,12 +98,12 @@ theorem v0_step_exact_or_collision {U : List Bytes} {a : Acc} (hi : Inv key U a)
     Inv key U (stepV0 key a op) ∧
       ((stepV0 key a op).bytes = bytesOf (stepV0 key a op).entries ∨ Collision key U) := by
   cases op with
-  | admit tx =>
+  | add tx =>
     refine ⟨inv_admit key hi tx hu, ?_⟩
     rcases hb with hb | hc
     · left
-      show (admit key a tx).bytes = bytesOf (admit key a tx).entries
-      unfold admit
+      show (admitTx key a tx).bytes = bytesOf (admitTx key a tx).entries
+      unfold admitTx
       split
       · exact hb
       · simp only [bytesOf_append, hb]
